@@ -398,6 +398,12 @@ var LexSpecs = []*LexSpec{
 		Prods: []LProd{
 			{"kw", Alt(Seq(C('a')), Seq(C('x'), C('y'), C('z')), Seq(C('b')), Seq(C('c')), Seq(C('d')), Seq(C('e')), Seq(C('f')), Seq(C('g')), Seq(C('h')), Seq(C('i')), Seq(C('j')), Seq(C('k')))},
 		}, SynLits: []string{"q"}},
+	{Name: "L16", Why: "repetitions whose body can match the empty string (gocc did not terminate on these before fix 5f4d2df)",
+		Prods: []LProd{
+			{"t", Seq(C('x'), Rep(Seq(Rep(Seq(C('a'))))), C('y'))},
+			{"u", Seq(Rep(Seq(Opt(Seq(C('b'))))), C('c'))},
+			{"v", Seq(C('d'), Opt(Seq(Rep(Seq(Opt(Seq(C('e'))), Opt(Seq(C('f'))))))), C('g'))},
+		}, SynLits: []string{"q"}},
 	{Name: "L10", Why: "declaration order between equal patterns; token vs ignored token with the same text",
 		Prods: []LProd{
 			{"first", Seq(C('a'), C('b'))},
